@@ -12,6 +12,7 @@ import numpy as np
 
 from vp import gen, probe, refmodels as rm
 from vp import defaults
+from vp import reuse
 
 RULE = ('seeded generator: arrays and cubes 1..14 per side (even/odd/non-square), target shapes mixing growing and '
         'shrinking axes, shape parameters (real radii/sizes), integer and real shifts, rotations, hex apertures '
@@ -217,6 +218,7 @@ def _hexgrid_edge_margin(shape, rings, radius, gap, rotate):
 
 def workload(ctx, lentil):
     defaults.run(ctx, lentil, 'C20', 'pad=index')
+    reuse.run(ctx, lentil, 'C20', 'pad=index')
     rng = ctx.rng
     U, H = lentil.util, lentil.helper
     n = ctx.count(160, 1200)
